@@ -18,6 +18,11 @@ def eval_expr(f, i, val):
         return val[t]
     if "cv" in n:
         return n["cv"]
+    if k in ("MemberExpr", "ArraySubscriptExpr") and val:
+        # the same object designated through an alias local (`Data* block = data; block->type`)
+        t2 = q.no_casts(q.xr(f, i))
+        if t2 != t and t2 in val:
+            return val[t2]
     if k in ("IntegerLiteral", "CharacterLiteral", "CXXBoolLiteralExpr"):
         return n["v"]
     if k in ("CXXNullPtrLiteralExpr", "GNUNullExpr"):
